@@ -119,6 +119,19 @@ namespace ValueFlow
         return v;
     }
 
+    // unsigned arithmetic wraps around in the type of the expression
+    static void wrapUnsignedResult(const Token* tok, Value& value, const Settings& settings)
+    {
+        if (!value.isIntValue() || value.isImpossible() || value.bound != Value::Bound::Point)
+            return;
+        const ValueType* vt = tok->valueType();
+        if (!vt || vt->pointer > 0 || !vt->isIntegral() || vt->sign != ValueType::Sign::UNSIGNED)
+            return;
+        const size_t sz = vt->getSizeOf(settings, ValueType::Accuracy::ExactOrZero, ValueType::SizeOf::Pointer);
+        if (sz > 0 && sz < sizeof(MathLib::bigint))
+            value.intvalue = truncateIntValue(value.intvalue, sz, ValueType::Sign::UNSIGNED);
+    }
+
     static const Token *getCastTypeStartToken(const Token *parent, const Library& library)
     {
         // TODO: This might be a generic utility function?
@@ -590,6 +603,9 @@ namespace ValueFlow
                         }
                         if (error)
                             continue;
+                        // (CheckType::checkLongCast relies on the unreduced value of '*' and '<<')
+                        if (!isFloat && !Token::Match(parent, "%comp%|*|<<"))
+                            wrapUnsignedResult(parent, result, settings);
                         // If the bound comes from the second value then invert the bound when subtracting
                         if (Token::simpleMatch(parent, "-") && value2.bound == result.bound &&
                             value2.bound != Value::Bound::Point)
@@ -649,6 +665,7 @@ namespace ValueFlow
                         // Value can't be inverted
                         continue;
                     v.intvalue = -v.intvalue;
+                    wrapUnsignedResult(parent, v, settings);
                 } else
                     v.floatValue = -v.floatValue;
                 v.invertBound();
